@@ -156,6 +156,91 @@ impl Aggregator {
     }
 }
 
+/// Verification hook (only compiled with `--cfg p2panda_p2panda_verif`): public mirror of the
+/// crate-private `SyncEvent` totals.
+#[cfg(p2panda_p2panda_verif)]
+#[doc(hidden)]
+#[derive(Clone, Debug, PartialEq, Eq)]
+pub enum VerifSyncSummary {
+    SyncStarted {
+        session_id: u64,
+        topic_sessions: u32,
+    },
+    SyncEnded {
+        session_id: u64,
+        sent_bytes: u32,
+        received_bytes: u32,
+        sent_bytes_topic_total: u32,
+        received_bytes_topic_total: u32,
+        failed: bool,
+    },
+    OperationReceived {
+        session_id: u64,
+        sent_bytes: u32,
+        received_bytes: u32,
+        sent_bytes_topic_total: u32,
+        received_bytes_topic_total: u32,
+        live: bool,
+    },
+}
+
+#[cfg(p2panda_p2panda_verif)]
+impl Aggregator {
+    /// Like `process`, but returns a public summary of the emitted event.
+    #[doc(hidden)]
+    pub fn verif_process<E: Extensions>(
+        &mut self,
+        from_sync: FromSync<TopicLogSyncEvent<E>>,
+    ) -> Option<VerifSyncSummary> {
+        self.process(from_sync).map(|event| match event {
+            SyncEvent::SyncStarted {
+                session_id,
+                topic_sessions,
+                ..
+            } => VerifSyncSummary::SyncStarted {
+                session_id,
+                topic_sessions,
+            },
+            SyncEvent::SyncEnded {
+                session_id,
+                sent_bytes,
+                received_bytes,
+                sent_bytes_topic_total,
+                received_bytes_topic_total,
+                error,
+                ..
+            } => VerifSyncSummary::SyncEnded {
+                session_id,
+                sent_bytes,
+                received_bytes,
+                sent_bytes_topic_total,
+                received_bytes_topic_total,
+                failed: error.is_some(),
+            },
+            SyncEvent::OperationReceived { source, .. } => match source {
+                Source::SyncSession {
+                    session_id,
+                    sent_bytes,
+                    received_bytes,
+                    sent_bytes_topic_total,
+                    received_bytes_topic_total,
+                    phase,
+                    ..
+                } => VerifSyncSummary::OperationReceived {
+                    session_id,
+                    sent_bytes,
+                    received_bytes,
+                    sent_bytes_topic_total,
+                    received_bytes_topic_total,
+                    live: matches!(phase, SessionPhase::Live),
+                },
+                #[allow(unreachable_patterns)]
+                _ => unreachable!("aggregator only emits sync session sources"),
+            },
+        })
+    }
+}
+
 /// Which phase of a sync session an operation arrived in.
 ///
 /// Nodes running the sync protocol will first exchange messages in order to catch up on past
